@@ -179,7 +179,7 @@ PROPS["C18"] = dict(
     level="exploration",
     engine="E1",
     parts=[dict(bin="e1_sig_store")],
-    rule="case = (signature type, value type, bucket bits b, max shard bits m, shard bits s <= m, online/offline); inside each case ALL multisets of size <= 4 over 2^max(b,m) signature classes (class = top bits of the signature; two distinguishable signatures per class, so equal signatures also occur) are pushed; plus skewed sets (all in class 0, all in the last class, two classes x 3000, 2500 spread) incl. the production pair m=16; every (b,m,s) with s<=m is enumerated, fewer/equal/more shard bits than bucket bits all occur",
+    rule="case = (signature type, value type, bucket bits b, max shard bits m, shard bits s <= m, online/offline); inside each case ALL multisets of size <= 4 over 2^max(b,m) signature classes (class = top bits of the signature; two distinguishable signatures per class, so equal signatures also occur) are pushed; plus skewed sets (all in class 0, all in the last class, two classes x 3000, 2500 spread) on the configurations the builder really uses (m = 16 with b in {0,1,3,8} and s in {0,1,2,3,4}) and a few more; every (b,m,s) with s<=m is enumerated, fewer/equal/more shard bits than bucket bits all occur",
     alphabet="S in {[u64;2],[u64;1]}; V in {u64,u8,EmptyVal}; b,m in 0..=3 (thorough 0..=4)",
     bound={"quick": "b,m <= 3, multisets <= 4 ([u64;2],u64) and <= 3 (others)", "thorough": "b,m <= 4, all six (S,V) pairs"},
     oracle="BTreeMap-style reference: shard j = pairs whose top s bits are j (s=0: one shard), multiset equality incl. values; shard_sizes() equals the lengths; len() equals the number pushed; iter() twice and into_iter() agree",
